@@ -15,7 +15,9 @@ SX   == Str(<<120>>)
 
 Leaf  == { Null, N1, N10, SX }
 Small == Leaf \cup { Obj(<<>>), Arr(<<>>), Obj(<<Mem(ca, Null)>>), Obj(<<Mem(ca, N1)>>), Obj(<<Mem(cb, SX)>>),
-                     Arr(<<Null>>), Arr(<<N1, Obj(<<Mem(ca, Null)>>)>>), NBig }
+                     Arr(<<Null>>), Arr(<<N1, Obj(<<Mem(ca, Null)>>)>>), NBig,
+                     \* arrays of objects one of which has a subset of the other's members (value equality inside arrays)
+                     Arr(<<Obj(<<Mem(ca, N1)>>)>>), Arr(<<Obj(<<Mem(ca, N1), Mem(cb, SX)>>)>>) }
 ObjsOver(S) == { Obj(<<Mem(ca, x)>>) : x \in S } \cup { Obj(<<Mem(cb, x)>>) : x \in S }
                \cup { Obj(<<Mem(ca, x), Mem(cb, y)>>) : x \in S, y \in S }
                \cup { Obj(<<Mem(cb, x), Mem(ca, y)>>) : x \in S, y \in S }
